@@ -44,7 +44,9 @@ COMPONENTS = [".", "..", "in.bin", "sub", "sub/in2.bin", "", "link_in", "link_ou
               "link_hard_in", "link_hard_out", "link_chain", "link_chain_hard", "sub/link_up_hard", "dlink_in/link_up_hard",
               # the sibling directory whose name has the base's name as a prefix, reached directly and through links
               "../base_evil/evil.bin", "link_evil", "dlink_evil/evil.bin", "sub/../../base_evil/evil.bin",
-              "in2.bin", "sub/../in.bin", "swap.bin", "sub/../swap.bin"]
+              "in2.bin", "sub/../in.bin", "swap.bin", "sub/../swap.bin",
+              # (inside the decoy directory `work`: a directory link into base/sub - reached when the base spelling leads there)
+              "into_sub/in2.bin", "into_sub/../in.bin"]
 # "abs_sub": the base is the sub-directory base/sub, so that the rest of base/ lies outside
 BASES = ["abs", "rel", "abs_slash", "via_symlink", "dotdot", "dot", "rel_dotslash", "abs_unnorm", "abs_sub"]
 ENTRIES = ["numpy", "__array__", "tobytes", "tofile_bytesio", "tofile_file", "lazy", "load_to_model", "save"]
@@ -57,8 +59,8 @@ LOADS = ["bare", "dot_slash", "rel_dotdot", "absolute", "via_symlink_dir", "rel_
          # the model file itself is a symbolic link whose target lies in the decoy directory (content-addressed cache layout)
          "model_file_symlink", "model_file_symlink_rel"]
 FOCUS = [(["swap.bin"], "abs"), (["sub/../swap.bin"], "abs"), (["..", "in.bin"], "abs_sub"), (["..", "swap.bin"], "abs_sub"), (["in.bin"], "abs"),
-         (["sub/in2.bin"], "via_symlink")]
-SWAPS = ["none", "symlink_out", "hardlink_out", "symlink_in"]
+         (["sub/in2.bin"], "via_symlink"), (["into_sub/in2.bin"], "via_symlink"), (["in.bin"], "via_symlink")]
+SWAPS = ["none", "symlink_out", "hardlink_out", "symlink_in", "repoint_base_link"]
 
 
 def strategy(tier, phase):
@@ -77,8 +79,8 @@ def strategy(tier, phase):
                                                              st.tuples(st.just("twin"), st.integers(0, 1), st.integers(0, 4)).map(list)), max_size=2),
                                   # focus: the main read aims at a file that the history can make forbidden (swap.bin) or that lies
                                   # just outside a deeper base
-                                  "focus": st.sampled_from([None, None, None, 0, 1, 2, 3, 4, 5]),
-                                  "swap": st.sampled_from([0, 0, 0, 1, 2, 3]),
+                                  "focus": st.sampled_from([None, None, None, 0, 1, 2, 3, 4, 5, 6, 7]),
+                                  "swap": st.sampled_from([0, 0, 0, 1, 2, 3, 4]),
                                   "again": st.lists(st.integers(0, 4), max_size=2)})
     load = st.fixed_dictionaries({"mode": st.just("load"), "loc": st.lists(comp, min_size=1, max_size=4), "how": st.integers(0, len(LOADS) - 1),
                                   "entry": st.integers(0, 4), "offset": st.sampled_from([0, 2]), "where": st.integers(0, len(WHERES) - 1),
@@ -245,6 +247,10 @@ def execute(case):
     try:
         base = make_tree(root)
         os.chdir(root)
+        if mode == "read" and SWAPS[case.get("swap", 0) % len(SWAPS)] == "repoint_base_link":
+            # re-pointing the base link only matters to reads spelled through it, after an earlier read through it
+            case = dict(case, focus=6 + (len(case.get("again") or []) % 2), warm=(case.get("warm") or []) + [["twin", 0, case.get("entry", 0) % 5]],
+                        pre=0 if case.get("offset") else case.get("pre", 0))
         if mode == "read" and case.get("focus") is not None:
             fl, fb = FOCUS[case["focus"] % len(FOCUS)]
             case = dict(case, loc=[COMPONENTS.index(c) for c in fl], base=BASES.index(fb))
@@ -311,7 +317,12 @@ def execute(case):
                 except Exception:
                     pass
             swap = SWAPS[case.get("swap", 0) % len(SWAPS)]
-            if swap != "none":
+            if swap == "repoint_base_link":
+                # the symbolic link through which a base directory is spelled now leads to the decoy directory
+                os.unlink(os.path.join(root, "base_link"))
+                os.symlink("work", os.path.join(root, "base_link"))
+                classes.append("base_directory_link_repointed_between_reads")
+            elif swap != "none":
                 sp = os.path.join(base, "swap.bin")
                 os.unlink(sp)
                 if swap == "symlink_out":
